@@ -1148,7 +1148,7 @@ func c06Hist(o *hx.Out, r *hx.Rng, directed int) (err error) {
 }
 
 func genC06(o *hx.Out, r *hx.Rng, tier string, replay string) error {
-	o.Rule = "sequences on ONE Filter: Match(A), then Match/Apply of another result B (other units, other n), then A's (and B's) Match consulted (Test all i, All, Any, Match.Apply) and judged on that result alone; " + "filter expressions generated from the grammar (terms key:value / key:(v OR v) / -term / (expr) / *, AND by juxtaposition or keyword, OR; keys .name .fullname /k /gomaxprocs file keys quoted keys .unit; values literal, quoted, regexp) up to depth 5, evaluated on results with n in {1,2,31,32,33,63,64,65,130} measurements with base and written units; fixed-list projections (1-3 Parse calls on one parser, incl. .fullname next to /k) wrapping such filters; fixed-order: a fixed list on .fullname together with every non-empty subset of {/size, .name, /gomaxprocs} in EVERY field order (the list first, in the middle, last), cut at random into 1-4 Parse calls on one parser, on names carrying those keys and the -N suffix; star: * as a direct operand of OR and of AND next to .unit and whole-result operands, negated and nested (16 templates + fixed texts); spell-one / spell: results whose measurements share the base unit sec/op but were written ns/op, us/op, sec/op or not rescaled, judged by .unit terms (bare, quoted, regexp, value list, negated) that tell the spellings apart, in one result and by one Filter across two results; history: ONE Filter and ONE ProjectionParser, Parse / ParseWithUnit calls that FAIL for a semantic reason in a later field (.name@nosuchorder, .unit, .config@(a b), key@fixed, unknown orders, empty key) after earlier fields carried fixed value lists (/size@(4k) .name@nosuchorder; /size@(4k),.unit; 1-2 fixed lists, valid fields before and between), then Match / Apply of 2-4 results through the SAME Filter, later successful Parse calls (with and without fixed lists) and further failing ones, every Match/Apply judged by (fixed lists of the SUCCESSFUL Parse calls so far) and (expression). non-trivial = some but not all measurements match (filters)"
+	o.Rule = "sequences on ONE Filter: Match(A), then Match/Apply of another result B (other units, other n), then A's (and B's) Match consulted (Test all i, All, Any, Match.Apply) and judged on that result alone; " + "filter expressions generated from the grammar (terms key:value / key:(v OR v) / -term / (expr) / *, AND by juxtaposition or keyword, OR; keys .name .fullname /k /gomaxprocs file keys quoted keys .unit; values literal, quoted, regexp) up to depth 5, evaluated on results with n in {1,2,31,32,33,63,64,65,130} measurements with base and written units; fixed-list projections (1-3 Parse calls on one parser, incl. .fullname next to /k) wrapping such filters; fixed-order: a fixed list on .fullname together with every non-empty subset of {/size, .name, /gomaxprocs} in EVERY field order (the list first, in the middle, last), cut at random into 1-4 Parse calls on one parser, on names carrying those keys and the -N suffix; star: * as a direct operand of OR and of AND next to .unit and whole-result operands, negated and nested (16 templates + fixed texts); spell-one / spell: results whose measurements share the base unit sec/op but were written ns/op, us/op, sec/op or not rescaled, judged by .unit terms (bare, quoted, regexp, value list, negated) that tell the spellings apart, in one result and by one Filter across two results; history: ONE Filter and ONE ProjectionParser, Parse / ParseWithUnit calls that FAIL for a semantic reason in a later field (.name@nosuchorder, .unit, .config@(a b), key@fixed, unknown orders, empty key) after earlier fields carried fixed value lists (/size@(4k) .name@nosuchorder; /size@(4k),.unit; 1-2 fixed lists, valid fields before and between), then Match / Apply of 2-4 results through the SAME Filter, later successful Parse calls (with and without fixed lists) and further failing ones, every Match/Apply judged by (fixed lists of the SUCCESSFUL Parse calls so far) and (expression). collide: two literal terms in one filter with different (key, value) pairs whose concatenation key+s+value coincides (s one of : = empty space | ,), as configuration keys set through the API and as sub-name keys, on results where the two terms hold different truth values, under OR / AND / negation templates. non-trivial = some but not all measurements match (filters)"
 	ns := []int{1, 2, 31, 32, 33, 63, 64, 65, 130}
 	per := 110
 	perFixed := 60
@@ -1262,5 +1262,8 @@ func genC06(o *hx.Out, r *hx.Rng, tier string, replay string) error {
 			}
 		}
 	}
-	return c06Mask(o, r.Split(), tier) // c06mask.go: distinct units at the mask's word boundaries (own stream)
+	if err := c06Mask(o, r.Split(), tier); err != nil { // c06mask.go: distinct units at the mask's word boundaries (own stream)
+		return err
+	}
+	return c06Collide(o, r.Split(), tier) // c06collide.go: two literal terms whose key+sep+value concatenations coincide (own stream, last)
 }
